@@ -58,16 +58,16 @@ CHECKS = {
          "No panic from open + metadata + verify on ~18M untrusted byte strings (overflow checks on); the library compiles under -F unsafe_code.",
          "The unsafe clause is a compiler lint, not model checking. Later operations on garbage may panic by the property's wording.", "DESIGN.md section 5 C20"),
  "C13": ("exploration", "invariant on the builder's live heap (counting allocator) checked in every state of exhaustively enumerated small scopes under tiny cache geometries + finite N ladder",
-         "After and at the peak during every insert of every history of the small scopes the builder's live heap stays under a bound without any term in the number of keys; ladder N = 1e4..4e5 (thorough 1e7) with plateau assertion for small caches. The asymptotic 'for all N' clause is not decided by a bounded exploration.",
+         "After and at the peak during every insert of every history of the small scopes the builder's live heap stays under a bound without any term in the number of keys; four ladders N = 1e4..4e5 (thorough 1e7): fixed-length keys, alternating key lengths, prefix pairs, and distinct wide nodes (fan-out 40), with plateau assertions for small caches. The asymptotic 'for all N' clause is not decided by a bounded exploration.",
          "Bound formula B(rows,cols,F,L) is the harness's reading of 'a constant determined by cache geometry, fan-out and key length'. The ladder is a finite family, not an enumeration.", "DESIGN.md section 5 C13"),
  "C14": ("exploration", "zero-allocation and live-heap invariants (counting allocator) checked at every next() of every traversal/set operation of exhaustively enumerated small scopes + finite N ladder",
-         "Open and lookups on borrowed bytes allocate nothing; live heap after every next() of stream/range/search and of k-way set operations is bounded by a function of L and k only; ladder N = 1e4, 1e5 (thorough 1e6) shows identical extra heap.",
+         "Open and lookups on borrowed bytes allocate nothing; live heap after every next() of stream/range/search and of k-way set operations is bounded by a function of L and k only; ladder N = 1e4, 1e5 (thorough 1e6) over partially overlapping, identical and disjoint inputs shows identical extra heap.",
          "'for all N' beyond the ladder is not decided.", "DESIGN.md section 5 C14"),
  "C15": (MC, "byte equality over all front ends for the enumerated sequences + exhaustive call-level interleavings of 2-3 concurrent builders + digests across threads and processes",
          "All 17 front ends and 4 sinks give identical bytes (also under evicting cache geometries); every multiset permutation of the API calls of two (three) builders leaves each builder's output equal to its solo run; whole-scope digest equal on 8 threads and in 4 processes.",
          "No synchronisation exists in the library (scanned), so a controlled thread scheduler would be vacuous; threads/processes part is a repetition, not an enumeration.", "DESIGN.md section 5 C15"),
  "C19": (MC, "stateful exhaustive exploration of all channel-level schedules of the real merge pipeline (controlled scheduler, happens-before state caching) x configuration grid vs merge model",
-         "The real cmd::map/set::run runs in-process under a controlled scheduler (hook H5): all interleavings of listed configurations (up to 3 batches / 2-3 workers / 2 generations) are explored; every complete execution must give a verifiable FST equal to the model merge and byte-identical across schedules; grid of all small inputs x batch/fd/threads/mode under the default schedule and the free-running real binary.",
+         "The real cmd::map/set::run runs in-process under a controlled scheduler (hook H5): all interleavings of listed configurations (up to 3 batches / 2-3 workers / 2 generations) are explored; every complete execution must give a verifiable FST equal to the model merge and byte-identical across schedules; grid of all small inputs x batch/fd/threads/mode and a many-batches family (5..24 batches) under the default schedule, and the free-running real binary. A TLA+ model of one pipeline round (model/MergeRound.tla) is bound to the code by outcome conformance (for every explored round the set of result orders reachable in the model, from TLC's state dump, equals the set observed in the code) and is then model-checked with TLC for larger rounds (deadlock freedom, nothing lost or duplicated).",
          "Threads interact only through channels (checked by unique-file trace); equal per-thread histories imply equal futures.", "DESIGN.md section 5 C19"),
 }
 PENDING = {}
@@ -89,7 +89,7 @@ def main():
                 "engine": "binharness" if pid == "C19" else "mc-harness",
                 "level_claimed": {"category": level, "text": text, "design_ref": ref},
                 "level_note": note,
-                "technique": tech,
+                "technique": tech + ("; TLC explicit-state model checking of a TLA+ protocol model with outcome conformance against the explored implementation" if pid == "C19" else ""),
             })
         else:
             na.append({"property_id": pid, "reason": PENDING.get(pid, "check under construction in this session; not claimed until it is built and shown green on the tree")})
